@@ -374,6 +374,7 @@ def run(ctx: Ctx):
     ctx.ob("C17.a", "RL4COLitModule._dataloader_single", ok, fi.loc, "the (already wrapped) dataset it is given is what the loader iterates; shuffling happens inside the loader over (instance, extra) items", construct="RL4COLitModule._dataloader_single")
     epoch_end_order(ctx)
     fetch_protocol_agrees(ctx)
+    baseline_rollouts_in_eval_mode(ctx)
 
 
 def epoch_end_order(ctx: Ctx):
@@ -446,6 +447,28 @@ def fetch_protocol_agrees(ctx: Ctx):
                construct=f"{cname}:fetch-protocol")
     if n < 2:
         raise AnalysisError(f"only {n} dataset classes with __getitem__ found in {DS}")
+
+
+def baseline_rollouts_in_eval_mode(ctx: Ctx):
+    """C17.g the value attached to item i is the baseline policy's greedy reward ON INSTANCE i: the rollout that computes it
+    switches the policy to eval mode first (`policy.eval()`), otherwise batch normalisation uses the statistics of whatever
+    batch the instance is evaluated in and the value depends on its batch-mates and on the batch size.  Sibling agreement
+    over the rollout functions of the baselines (RolloutBaseline.rollout and the module-level rollout MDAM installs)."""
+    sites = [("rl4co/models/rl/reinforce/baselines.py", "RolloutBaseline.rollout"), ("rl4co/models/zoo/mdam/model.py", "rollout")]
+    for rel, qn in sites:
+        fi = ctx.repo.get_function(rel, qn)
+        if fi is None:
+            raise AnalysisError(f"{rel}:{qn} not found")
+        ctx.fn(fi)
+        params = fi.params()
+        pol = params[1] if params and params[0] == "self" and len(params) > 1 else (params[0] if params else None)
+        evals = [c for c in ast.walk(fi.node) if isinstance(c, ast.Call) and isinstance(c.func, ast.Attribute) and c.func.attr == "eval" and isinstance(c.func.value, ast.Name) and c.func.value.id == pol and not c.args]
+        trains = [c for c in ast.walk(fi.node) if isinstance(c, ast.Call) and isinstance(c.func, ast.Attribute) and c.func.attr == "train" and isinstance(c.func.value, ast.Name) and c.func.value.id == pol]
+        calls = [c for c in ast.walk(fi.node) if isinstance(c, ast.Call) and isinstance(c.func, ast.Name) and c.func.id == pol]
+        ok = bool(evals) and bool(calls) and min(c.lineno for c in evals) < min(c.lineno for c in calls) and not [t for t in trains if t.lineno < max(c.lineno for c in calls)]
+        ctx.ob("C17.g", f"{qn}:policy-in-eval-mode", ok, fi.loc,
+               f"`{pol}.eval()` before the policy is called: {ok}" + ("" if ok else " -- the baseline value of an instance then depends on the batch it is rolled out in"),
+               construct=f"{rel}:{qn}:eval-mode")
 
 
 def run_thorough(ctx: Ctx):
